@@ -53,12 +53,21 @@ type job struct {
 
 func jobs() map[string]job {
 	return map[string]job{
-		"pageA":    {"pageA", func() templ.Component { return Page("alice", []string{"a1", "a2"}) }, -1},
-		"pageB":    {"pageB", func() templ.Component { return Page("bob", []string{"b1"}) }, -1},
-		"bigA":     {"bigA", func() templ.Component { return Big("AAAA") }, -1},
-		"bigB":     {"bigB", func() templ.Component { return Big("BBBB") }, -1},
-		"smallA":   {"smallA", func() templ.Component { return Small("a") }, -1},
-		"smallB":   {"smallB", func() templ.Component { return Small("b") }, -1},
+		"pageA":   {"pageA", func() templ.Component { return Page("alice", []string{"a1", "a2"}) }, -1},
+		"pageB":   {"pageB", func() templ.Component { return Page("bob", []string{"b1"}) }, -1},
+		"bigA":    {"bigA", func() templ.Component { return Big("AAAA") }, -1},
+		"bigB":    {"bigB", func() templ.Component { return Big("BBBB") }, -1},
+		"smallA":  {"smallA", func() templ.Component { return Small("a") }, -1},
+		"smallB":  {"smallB", func() templ.Component { return Small("b") }, -1},
+		"spreadA": {"spreadA", func() templ.Component { return Spread("alice@example.com") }, -1},
+		"spreadB": {"spreadB", func() templ.Component { return Spread("bob") }, -1},
+		// the same sanitisers with an accepted and a rejected value side by side
+		"kitchenA": {"kitchenA", func() templ.Component {
+			return Kitchen("red", "https://example.com/a", "serif", templ.Attributes{"data-x": "1", "data-y": "alice"})
+		}, -1},
+		"kitchenB": {"kitchenB", func() templ.Component {
+			return Kitchen("x}*{color:x", "data:text/html,<script>alert(1)</script>", "x}*{color:x, serif", templ.Attributes{"data-x": "2"})
+		}, -1},
 		"bigFail":  {"bigFail", func() templ.Component { return Big("FFFF") }, 40},
 		"pageFail": {"pageFail", func() templ.Component { return Page("carol", []string{"c1"}) }, 70},
 	}
@@ -154,7 +163,7 @@ func devModeReady() bool { return templruntime.VerifDevMode() }
 
 func raceMode(ref map[string]outcome) {
 	all := jobs()
-	names := []string{"pageA", "pageB", "bigA", "bigB", "smallA", "smallB", "bigFail", "pageFail"}
+	names := []string{"pageA", "pageB", "bigA", "bigB", "smallA", "smallB", "bigFail", "pageFail", "spreadA", "spreadB", "kitchenA", "kitchenB", "kitchenB", "kitchenA"}
 	var wg sync.WaitGroup
 	var mu sync.Mutex
 	mismatch := ""
@@ -216,6 +225,7 @@ func main() {
 		{"3 goroutines x 1 render", [][]string{{"smallA"}, {"bigB"}, {"pageA"}}},
 		{"2 goroutines, one writer fails midway, then renders again", [][]string{{"bigFail", "smallA"}, {"bigB", "smallB"}}},
 		{"2 goroutines, page render fails midway next to a page render", [][]string{{"pageFail"}, {"pageB", "smallB"}}},
+		{"2 goroutines rendering spread attributes", [][]string{{"spreadA"}, {"spreadB"}}},
 	}
 	if dev {
 		scenarios = []scenario{
@@ -226,6 +236,19 @@ func main() {
 		scenarios = append(scenarios, scenario{"3 goroutines x 2 renders", [][]string{{"smallA", "bigA"}, {"bigB", "smallB"}, {"pageA", "smallA"}}})
 	}
 	deadline := time.Now().Add(time.Duration(run.Pick(100, 1800)) * time.Second)
+	if rp := replayArg(); rp != "" {
+		rf := readReplay(rp)
+		for _, sc := range scenarios {
+			if sc.name == rf.Replay.Scenario {
+				out, trace := vsched.Replay(sc.build(ref), vsched.Options{MaxSteps: 20000}, rf.Replay.Choices)
+				finishReplay("C14", rp, out, trace)
+			}
+		}
+		if dev {
+			os.Exit(0) // the scenario belongs to the other mode
+		}
+		vlib.Fatal("scenario %q of the replay file is not part of this tier/mode", rf.Replay.Scenario)
+	}
 	execs, points, states := 0, 0, 0
 	var per []map[string]any
 	var viols []viol
@@ -336,4 +359,41 @@ func firstLines(s string, n int) string {
 		l = l[:n]
 	}
 	return strings.Join(l, "\n")
+}
+
+func replayArg() string {
+	for i, a := range os.Args {
+		if a == "--replay" && i+1 < len(os.Args) {
+			return os.Args[i+1]
+		}
+	}
+	return ""
+}
+
+type replayFile struct {
+	Replay struct {
+		Scenario string `json:"scenario"`
+		Choices  []int  `json:"choices"`
+	} `json:"replay"`
+}
+
+func readReplay(path string) replayFile {
+	var rf replayFile
+	b, err := os.ReadFile(path)
+	if err != nil || json.Unmarshal(b, &rf) != nil {
+		vlib.Fatal("cannot read replay file %s", path)
+	}
+	return rf
+}
+
+func finishReplay(id, path, out string, trace []string) {
+	for _, l := range trace {
+		fmt.Println("  " + l)
+	}
+	fmt.Println("outcome:", out)
+	if out != "ok" {
+		fmt.Printf("VIOLATION property=%s replay=%s\n", id, path)
+		os.Exit(1)
+	}
+	os.Exit(0)
 }
